@@ -284,26 +284,35 @@ def run_kind(prog: Program, kind: str, mode: str | None, database_set=True, sche
 class FullHooks(ExecHooks):
     """execute(command, params): the Snowflake parse is replaced by a statement descriptor."""
 
-    def __init__(self, mode, kind):
+    def __init__(self, mode, kind, undefined_var=None):
         super().__init__(mode)
         self.kind = kind
         self.parsed = 0
+        self.undefined_var = undefined_var  # None: explore both; False: no residual $name; True: a residual $name
+
+    def obj_method(self, I, recv, name, args, kwargs, site):
+        if recv.kind == "match" and name == "group":
+            return Sym("$residual", typ="str", truthy=True)
+        return NotImplemented
 
     def external(self, I, d, args, kwargs, site):
         if d in ("sqlglot.parse_one",) and isinstance(kwargs.get("read"), Const) and kwargs["read"].v == "snowflake":
             self.parsed += 1
             I.effect("parse-user", args[0] if args else None, site)
             return descriptors()[self.kind]
+        if d in ("re.search", "re.findall", "re.finditer") and self.undefined_var is not None and I.callstack and "variables" in I.callstack[-1]:
+            I.effect("call", d, args, kwargs, site)
+            return Obj("residual_match", kind="match") if self.undefined_var else Const(None)
         return super().external(I, d, args, kwargs, site)
 
 
 def run_execute(prog: Program, kind: str, mode: str | None, params=None, paramstyle="pyformat", nop_regexes=None,
-                variables=None, max_paths=256, old_sqlstate="OLD"):
+                variables=None, max_paths=256, old_sqlstate="OLD", undefined_var=False):
     out = []
     hooks_list, sessions = [], []
 
     def factory():
-        h = FullHooks(mode, kind)
+        h = FullHooks(mode, kind, undefined_var)
         hooks_list.append(h)
         return h
 
